@@ -304,6 +304,16 @@ func evalUse(c Case) evid.Verdict {
 				return evid.Fail(sig, "Ticket.Marshal after DecryptEncPart returns %d bytes (%v), the ticket received has %d; first difference at byte %d; contains session key in clear: %v",
 					len(out), err, len(m.TicketDER), firstDiff(out, m.TicketDER), bytes.Contains(out, m.Session.Value))
 			}
+			// the same decrypted ticket sent on as an additional ticket (user-to-user, S4U2Proxy): the other route by which a ticket is encoded
+			raw, err := messages.MarshalTicketSequence([]messages.Ticket{t, t})
+			if err != nil {
+				return evid.Fail("encode-fail:ticket-seq", "MarshalTicketSequence of a decrypted ticket: %v", err)
+			}
+			seqOf := &der.Type{Name: "SEQUENCE OF Ticket", Kind: der.KSeqOf, App: -1, Elem: der.Ticket}
+			if _, derr := seqOf.Decode(raw.Bytes); derr != nil || !bytes.HasSuffix(raw.Bytes, append(append([]byte{}, m.TicketDER...), m.TicketDER...)) || bytes.Contains(raw.Bytes, m.Session.Value) {
+				return evid.Fail(sig+":additional-ticket", "MarshalTicketSequence of a ticket after DecryptEncPart: strict decode as SEQUENCE OF Ticket: %v; %d bytes for two tickets of %d; ends with the two tickets received: %v; session key in clear: %v",
+					derr, len(raw.Bytes), len(m.TicketDER), bytes.HasSuffix(raw.Bytes, append(append([]byte{}, m.TicketDER...), m.TicketDER...)), bytes.Contains(raw.Bytes, m.Session.Value))
+			}
 			return evid.Pass()
 		}
 		var ap messages.APReq
@@ -605,7 +615,7 @@ func TestProp(t *testing.T) {
 		}
 	})
 
-	r.Rule("use: Ticket, AP-REQ, AS-REP, TGS-REP, KRB-PRIV minted with the reference crypto for every etype, decoded, decrypted/verified by gokrb5, then re-marshalled: the bytes must be those received")
+	r.Rule("use: Ticket, AP-REQ, AS-REP, TGS-REP, KRB-PRIV minted with the reference crypto for every etype, decoded, decrypted/verified by gokrb5, then re-marshalled: the bytes must be those received; the decrypted ticket is also encoded as an additional ticket (MarshalTicketSequence), which must be the received bytes twice inside a SEQUENCE")
 	for _, ty := range []string{"use-ticket", "use-apreq", "use-asrep", "use-tgsrep", "use-krbpriv"} {
 		for _, et := range ref.ETypes {
 			for k := 0; k < r.N(6, 24); k++ {
